@@ -246,6 +246,10 @@ pub fn configs(tier: Tier) -> Vec<Config> {
     v.push(Config { name: "2-lazy-clones-never-touched", objects: vec![0, 1], texts: vec![vec![], vec![]], bound: None, lazy: true, fully_materialised: vec![] });
     v.push(Config { name: "2-lazy-savers-same-object-never-touched", objects: vec![0, 0], texts: vec![vec![]], bound: None, lazy: true, fully_materialised: vec![] });
     v.push(Config { name: "3-lazy-shared+clone-overlapping", objects: vec![0, 0, 1], texts: vec![t(&["onlyA", "common"]), t(&["common", "onlyB"])], bound: Some(if thorough { 3 } else { 2 }), lazy: true, fully_materialised: vec![] });
+    // lazily opened, a loaded sheet carries a chart over two still-unloaded sheets, and the two clones DIFFER IN THEIR
+    // SHEET LISTS (one has removed the first sheet): whatever a save derives from an unloaded sheet for the chart caches
+    // must be that workbook's own (preemption-bounded: a save of this workbook passes about twice as many points)
+    v.push(Config { name: CHART_CFG, objects: vec![0, 1], texts: vec![t(&["onlyA"]), t(&["onlyB"])], bound: Some(if thorough { 3 } else { 2 }), lazy: true, fully_materialised: vec![] });
     if !thorough {
         // quick tier: since the per-save string table (fix 5ef43dc) fully loaded workbooks share no mutable state
         // while saving; two of their configurations stay as regression guards, the lazy ones are all kept
@@ -255,6 +259,126 @@ pub fn configs(tier: Tier) -> Vec<Config> {
         v.push(Config { name: "3-clones-overlapping", objects: vec![0, 1, 2], texts: vec![t(&["x", "common"]), t(&["common", "y"]), t(&["z", "common"])], bound: Some(3), lazy: false, fully_materialised: vec![] });
     }
     v
+}
+
+const CHART_CFG: &str = "2-lazy-clones-chart-over-raw-sheets-one-without-first-sheet";
+fn is_chart_cfg(cfg: &Config) -> bool {
+    cfg.name.ends_with(CHART_CFG)
+}
+/// Sheet1 (front), Charts (a line chart whose two series are RawA!$A$1:$A$2 and RawB!$A$1:$A$2), RawA, RawB
+fn chart_file_bytes() -> Vec<u8> {
+    let mut b = new_file();
+    b.get_sheet_mut(&0).unwrap().get_cell_mut("A1").set_value_string("front");
+    b.new_sheet("Charts").unwrap();
+    b.new_sheet("RawA").unwrap();
+    b.new_sheet("RawB").unwrap();
+    for (i, p) in [(2usize, "alpha"), (3, "beta")] {
+        let ws = b.get_sheet_mut(&i).unwrap();
+        ws.get_cell_mut("A1").set_value_string(format!("{}-1", p));
+        ws.get_cell_mut("A2").set_value_string(format!("{}-2", p));
+    }
+    let ws = b.get_sheet_mut(&1).unwrap();
+    ws.get_cell_mut("D1").set_value_number(42);
+    let mut from = umya_spreadsheet::drawing::spreadsheet::MarkerType::default();
+    from.set_coordinate("C3");
+    let mut to = umya_spreadsheet::drawing::spreadsheet::MarkerType::default();
+    to.set_coordinate("H12");
+    let mut chart = umya_spreadsheet::Chart::default();
+    chart.new_chart(umya_spreadsheet::ChartType::LineChart, from, to, vec!["RawA!$A$1:$A$2", "RawB!$A$1:$A$2"]);
+    ws.add_chart(chart);
+    save_bytes(&b, false).expect("chart fixture")
+}
+fn build_chart_books(cfg: &Config) -> Vec<Arc<Spreadsheet>> {
+    let mut base = load_bytes(&chart_file_bytes(), false).expect("lazy load");
+    base.read_sheet(1); // "Charts"
+    let mut out = vec![];
+    for j in 0..cfg.texts.len() {
+        let mut b = base.clone();
+        if j == 1 {
+            b.remove_sheet(0).expect("remove first sheet");
+        }
+        let ws = b.get_sheet_mut(&(if j == 1 { 0 } else { 1 })).expect("Charts sheet");
+        for (i, t) in cfg.texts[j].iter().enumerate() {
+            ws.get_cell_mut((1u32, i as u32 + 1)).set_value_string(*t);
+        }
+        out.push(Arc::new(b));
+    }
+    cfg.objects.iter().map(|o| out[*o].clone()).collect()
+}
+/// parts of a package that do not depend on the order in which shared strings were registered
+fn order_free_parts(bytes: &[u8]) -> Option<Vec<(String, Vec<u8>)>> {
+    crate::c14::zip_parts(bytes).map(|v| v.into_iter().filter(|(n, _)| n != "xl/sharedStrings.xml" && !n.starts_with("xl/worksheets/sheet")).collect())
+}
+/// what each saver of the chart configuration produces when it saves ALONE (computed once per process)
+fn chart_solo_parts(cfg: &Config) -> Vec<Option<Vec<(String, Vec<u8>)>>> {
+    static SOLO: std::sync::Mutex<Option<Vec<Option<Vec<(String, Vec<u8>)>>>>> = std::sync::Mutex::new(None);
+    let mut g = SOLO.lock().unwrap();
+    if g.is_none() {
+        let mut v = vec![];
+        for k in 0..cfg.objects.len() {
+            // fresh workbooks for every solo save: nothing of an earlier save can be left in shared state
+            let books = build_chart_books(cfg);
+            v.push(save_bytes(&books[k], false).ok().and_then(|b| order_free_parts(&b)));
+        }
+        *g = Some(v);
+    }
+    g.clone().unwrap()
+}
+fn check_exec_chart(cfg: &Config, ex: &Exec, out: &mut Vec<(String, String, String)>) -> u64 {
+    let solo = chart_solo_parts(cfg);
+    let mut outcome = String::new();
+    for (k, o) in ex.outputs.iter().enumerate() {
+        match o {
+            Err(e) => {
+                let sym = if e.starts_with("panic") { format!("saver-panicked:{}", panic_class(e)) } else { format!("saver-error:{}", panic_class(e)) };
+                out.push(("save-completes".into(), sym, format!("saver {}: {}", k, e)));
+                outcome.push_str("ERR;");
+            }
+            Ok(bytes) => match load_bytes(bytes, true) {
+                Err(e) => {
+                    out.push(("output-readable".into(), format!("unreadable:{}", panic_class(&e)), format!("saver {}: {}", k, e)));
+                    outcome.push_str("UNREADABLE;");
+                }
+                Ok(b2) => {
+                    let want_sheets: Vec<&str> = if cfg.objects[k] == 1 { vec!["Charts", "RawA", "RawB"] } else { vec!["Sheet1", "Charts", "RawA", "RawB"] };
+                    let got_sheets: Vec<String> = b2.get_sheet_collection_no_check().iter().map(|w| w.get_name().to_string()).collect();
+                    if got_sheets != want_sheets {
+                        out.push(("content-equals-solo-save".into(), "sheet-list-differs".into(), format!("saver {}: sheets {:?}, expected {:?}", k, got_sheets, want_sheets)));
+                    }
+                    let mut cells: Vec<(&str, &str, String)> = vec![("Charts", "D1", "42".into()), ("RawA", "A1", "alpha-1".into()), ("RawA", "A2", "alpha-2".into()), ("RawB", "A1", "beta-1".into()), ("RawB", "A2", "beta-2".into())];
+                    cells.push(("Charts", "A1", cfg.texts[cfg.objects[k]][0].to_string()));
+                    for (sh, addr, want) in cells {
+                        let got = b2.get_sheet_by_name(sh).map(|w| w.get_value(addr)).unwrap_or_default();
+                        if got != want {
+                            out.push(("content-equals-solo-save".into(), "cell-text-wrong".into(), format!("saver {} cell {}!{}: expected {:?}, file shows {:?}", k, sh, addr, want, got)));
+                        }
+                    }
+                    // every part that does not depend on string registration order: byte for byte what the solo save wrote
+                    match (order_free_parts(bytes), &solo[k]) {
+                        (Some(got), Some(want)) => {
+                            let gn: Vec<&String> = got.iter().map(|x| &x.0).collect();
+                            let wn: Vec<&String> = want.iter().map(|x| &x.0).collect();
+                            if gn != wn {
+                                out.push(("content-equals-solo-save".into(), "part-list-differs".into(), format!("saver {}: parts {:?}, the solo save wrote {:?}", k, gn, wn)));
+                            } else {
+                                for ((n, g), (_, w)) in got.iter().zip(want.iter()) {
+                                    if g != w {
+                                        let c = g.iter().zip(w.iter()).take_while(|(a, b)| a == b).count();
+                                        let cls = if n.starts_with("xl/charts/") { "chart-part-differs" } else { "other-part-differs" };
+                                        out.push(("content-equals-solo-save".into(), cls.into(), format!("saver {}: part {} differs from the solo save at byte {}: ...{:?} instead of ...{:?}", k, n, c, String::from_utf8_lossy(&g[c.saturating_sub(30)..(c + 50).min(g.len())]), String::from_utf8_lossy(&w[c.saturating_sub(30)..(c + 50).min(w.len())]))));
+                                    }
+                                }
+                            }
+                        }
+                        _ => out.push(("output-readable".into(), "not-a-zip".into(), format!("saver {}: output or solo reference is not a readable archive", k))),
+                    }
+                    outcome.push_str(&shared_strings_signature(bytes));
+                    outcome.push(';');
+                }
+            },
+        }
+    }
+    fnv(outcome.as_bytes())
 }
 
 /// Every execution builds its workbooks from scratch (a save mutates the shared table).
@@ -270,6 +394,9 @@ fn lazy_file_bytes() -> Vec<u8> {
 }
 
 fn build_books(cfg: &Config) -> Vec<Arc<Spreadsheet>> {
+    if is_chart_cfg(cfg) {
+        return build_chart_books(cfg);
+    }
     let never_touched = cfg.lazy && cfg.texts.iter().all(|t| t.is_empty());
     let mut base = if cfg.lazy {
         // opened lazily; only the first sheet is materialised (and edited below), the second stays raw
@@ -321,6 +448,9 @@ fn expected_cells(cfg: &Config, saver: usize) -> Vec<(String, String)> {
 
 /// Oracle for one execution: every saver's output decodes to its own workbook's content.
 fn check_exec(cfg: &Config, ex: &Exec, out: &mut Vec<(String, String, String)>) -> u64 {
+    if is_chart_cfg(cfg) {
+        return check_exec_chart(cfg, ex, out);
+    }
     let mut outcome = String::new();
     for (k, o) in ex.outputs.iter().enumerate() {
         match o {
